@@ -89,6 +89,30 @@ def events(seed, n):
                                     r = grid_slice_interp(g, float(x), key)
                                     ev.append({"kind": "Slice", "grid": _proj(g), "axis": a + 1, "x": bits(x), "res": _proj(r),
                                                "_m": {"shape": list(shape), "axis": key, "x": float(x)}})
+        # HDF5 overwrite sequences: grid A, then a same-shape grid B of another dtype to the same file and path, then read
+        for a_dt, b_dt in (("i4", "f8"), ("f4", "f8"), ("i4", "i8"), ("f8", "i4"), ("f8", "f8")):
+            for h5path in ("/", "/nested/grid"):
+                case += 1
+                shape = (2, 3)
+                A_ = (rng.integers(0, 100, size=shape)).astype(a_dt)
+                B_ = (rng.integers(0, 2 ** 20, size=shape) * 4097 + (1 / 3 if b_dt[0] == "f" else 0)).astype(b_dt)
+                if b_dt == "i8":
+                    B_ = (B_.astype("i8") * 2 ** 20 + 7)
+                axA = [np.array([0.0, 1.0]), np.array([1.0, 2.0, 3.0])]
+                axB = [np.array([0.25, 1.0 / 3]), np.array([1.0, 2.5, 3.0 + 1e-9])]
+                fn = os.path.join(tmp, f"ow{case}.h5")
+                gA, gB = NssGrid(A_, axA, ["p", "q"]), NssGrid(B_, axB, ["p", "q"])
+                meta = {"fmt": "hdf5", "overwrite": f"{a_dt}->{b_dt}", "path": h5path}
+                try:
+                    gA.write(fn, format="hdf5", path=h5path)
+                    ev.append({"kind": "Write", "path": "p4", "grid": _proj(gA), "_m": meta})
+                    gB.write(fn, format="hdf5", path=h5path, overwrite=True)
+                    ev.append({"kind": "Write", "path": "p4", "grid": _proj(gB), "_m": meta})
+                    ev.append({"kind": "Read", "path": "p4", "grid": _proj(NssGrid.read(fn, format="hdf5", path=h5path)), "_m": meta})
+                except Exception as ex:
+                    ev.append({"kind": "Write", "path": "p4", "grid": _proj(gB), "_m": meta})
+                    ev.append({"kind": "Read", "path": "p4", "grid": {"shape": [], "names": [], "axes": [], "data": []},
+                               "_m": dict(meta, error=repr(ex)[:300])})
         # row-wise interpolation on non-decreasing rows with plateaus, queries strictly inside the row range
         for _ in range(max(10, n)):
             k = int(rng.integers(3, 9))
